@@ -21,6 +21,9 @@ produces an internal error, no schedule loses a wake-up (from C04).  The rest is
 -/
 namespace C03
 open QM.Sys
+set_option linter.unusedSectionVars false
+section
+variable [Cfg]
 
 /-- **Steps of two different workers commute**: for `i ≠ j`, performing `Worker::step` of worker
 `i` (any visibility, slice length, iteration orders) and then of worker `j` yields the same
@@ -171,9 +174,15 @@ theorem confluence_partial :
    fun prog now self f1 f2 p => slice_add prog now self f1 f2 p,
    fun n prog req hn hwf cs => C04.no_fault n prog req hn hwf cs⟩
 
+end
+
 /-- the hypotheses are satisfiable: two workers with work to do -/
 example : (C04.reach 2 C04.exProg 1 [.worker 0 100 5 [] [], .env [100, 100]]).cmdQ 1 ≠ [] ∧
     (C04.reach 2 C04.exProg 1 [.worker 0 100 5 [] [], .env [100, 100]]).cmdQ 0 ≠ [] := by decide
+
+section
+variable [Cfg]
+
 
 /-! ### confluence: determinacy proved (await/spawn/send/receive), progress stated -/
 
@@ -570,10 +579,13 @@ example : Trace rProg rRho (fun k => if k = 1 then [(1, 0), (2, 0)] else []) 1 2
   Trace.recv 1 1 [keyVal (2, 0)] [(1, 0)] .any (1, 0) []
     (Trace.recv 1 0 [] [(1, 0), (2, 0)] (.tag 2) (2, 0) [(1, 0)] (Trace.zero 1) rfl rfl) rfl rfl
 
+end
+
 /-- the hypotheses are met by a concrete two-worker run: after main's first slice on worker 0, one
 environment step and one step of worker 1, process 1 (script 1) has finished ON WORKER 1 while
 main is parked on worker 0 -/
 example : ((C04.reach 2 kProg 1 [.worker 0 100 5 [] [], .env [100, 100], .worker 1 100 5 [] []]).wk 1).resultOf 1 =
     some (.ok (Val.tuple [[1]])) := by decide +kernel
+
 
 end C03
